@@ -265,6 +265,23 @@ def n17_closure_wildcard(toks, counts):
     return out
 
 
+def n18_wildcard_param(toks, counts):
+    """N18: an ignored function parameter `_: T` is written `_pK: T` (Verus: "function parameters must be a plain
+    identifier pattern")."""
+    out = []
+    k = 0
+    for i, t in enumerate(toks):
+        if t.kind == "id" and t.text == "_" and 0 < i < len(toks) - 1 and is_p(toks[i + 1], ":") \
+                and not (i + 2 < len(toks) and is_p(toks[i + 2], ":")) \
+                and toks[i - 1].kind == "punct" and toks[i - 1].text in ("(", ","):
+            out.append(t.clone(text="_p%d" % k))
+            k += 1
+            counts["N18"] = counts.get("N18", 0) + 1
+        else:
+            out.append(t)
+    return out
+
+
 def n6_debug_assert(toks, counts):
     out = []
     i, n = 0, len(toks)
@@ -831,6 +848,7 @@ def apply_all(toks, repo, opts, notes):
     toks = n14_mut_self(toks, counts)
     toks = n16_unreachable(toks, counts)
     toks = n17_closure_wildcard(toks, counts)
+    toks = n18_wildcard_param(toks, counts)
     if opts.get("n15"):
         toks = n15_errmsg(toks, counts)
     if opts.get("n13"):
